@@ -38,6 +38,7 @@ MODULES = [
     "sparsefmt",
     "counts",
     "windows",
+    "positions",
 ]
 
 
